@@ -44,6 +44,12 @@ func c09LocalDef(f *kit.Func, e ast.Expr) ast.Expr {
 					n++
 					if len(s.Lhs) == len(s.Rhs) {
 						def = s.Rhs[i]
+					} else if i == 0 && len(s.Lhs) == 2 && len(s.Rhs) == 1 {
+						// v, ok := x.(T) / m[k] / <-ch
+						switch ast.Unparen(s.Rhs[0]).(type) {
+						case *ast.TypeAssertExpr, *ast.IndexExpr:
+							def = s.Rhs[0]
+						}
 					}
 				}
 			}
@@ -67,26 +73,60 @@ func c09LocalDef(f *kit.Func, e ast.Expr) ast.Expr {
 
 // c09AlgAtom recognises `<tok>.Method.Alg() == "HS256"` and `<tok>.Method ==
 // jwt.SigningMethodHS256` (either operand order, == or !=).
-func c09AlgAtom(info *types.Info, e ast.Expr, isTok func(ast.Expr) bool) (neg, ok bool) {
+func c09AlgAtom(info *types.Info, e ast.Expr, isTok func(ast.Expr) bool, def func(ast.Expr) ast.Expr, seen map[ast.Node]bool) (neg, ok bool) {
 	x, y, op, isCmp := kit.CmpAtom(e)
 	if !isCmp || (op != token.EQL && op != token.NEQ) {
 		return false, false
 	}
+	if def == nil {
+		def = func(z ast.Expr) ast.Expr { return z }
+	}
 	method := func(z ast.Expr) bool { // <tok>.Method
-		ts, ok := ast.Unparen(z).(*ast.SelectorExpr)
+		ts, ok := ast.Unparen(def(z)).(*ast.SelectorExpr)
 		if !ok || !isTok(ts.X) {
 			return false
 		}
 		v, ok := kit.ObjOf(info, ts).(*types.Var)
-		return ok && v.IsField() && v.Pkg() != nil && strings.HasPrefix(v.Pkg().Path(), c09JWTPfx)
-	}
-	isAlg := func(z ast.Expr) bool {
-		call, ok := ast.Unparen(z).(*ast.CallExpr)
-		if !ok || !c09IsJWT(kit.Callee(info, call), "Alg") {
-			return false
+		if ok && v.IsField() && v.Pkg() != nil && strings.HasPrefix(v.Pkg().Path(), c09JWTPfx) && v.Name() == "Method" {
+			if seen != nil {
+				seen[ts] = true
+			}
+			return true
 		}
-		ms, ok := ast.Unparen(call.Fun).(*ast.SelectorExpr)
-		return ok && method(ms.X)
+		return false
+	}
+	// the algorithm of the parsed token: <tok>.Method.Alg(), <tok>.Header["alg"] (.(string)),
+	// or a single-definition local holding one of them
+	isAlg := func(z ast.Expr) bool {
+		z = ast.Unparen(def(z))
+		if ta, ok := z.(*ast.TypeAssertExpr); ok {
+			z = ast.Unparen(ta.X)
+		}
+		switch w := z.(type) {
+		case *ast.CallExpr:
+			if !c09IsJWT(kit.Callee(info, w), "Alg") {
+				return false
+			}
+			ms, ok := ast.Unparen(w.Fun).(*ast.SelectorExpr)
+			if ok && method(ms.X) {
+				if seen != nil {
+					seen[w] = true
+				}
+				return true
+			}
+		case *ast.IndexExpr:
+			hs, ok := ast.Unparen(w.X).(*ast.SelectorExpr)
+			if !ok || !isTok(hs.X) {
+				return false
+			}
+			if k, ok := kit.ConstString(info, w.Index); ok && k == "alg" {
+				if seen != nil {
+					seen[w] = true
+				}
+				return true
+			}
+		}
+		return false
 	}
 	for i := 0; i < 2; i++ {
 		if isAlg(x) {
@@ -95,13 +135,39 @@ func c09AlgAtom(info *types.Info, e ast.Expr, isTok func(ast.Expr) bool) (neg, o
 			}
 		}
 		if method(x) {
-			if v, ok := kit.ObjOf(info, y).(*types.Var); ok && v.Pkg() != nil && strings.HasPrefix(v.Pkg().Path(), c09JWTPfx) && v.Name() == "SigningMethodHS256" {
+			if v, ok := kit.ObjOf(info, def(y)).(*types.Var); ok && v.Pkg() != nil && strings.HasPrefix(v.Pkg().Path(), c09JWTPfx) && v.Name() == "SigningMethodHS256" {
 				return op == token.NEQ, true
 			}
 		}
 		x, y = y, x
 	}
 	return false, false
+}
+
+// c09AlgUses lists the places of f's call closure that look at the algorithm of
+// a token: calls of SigningMethod.Alg and reads of Header["alg"].
+func c09AlgUses(f *kit.Func) []ast.Node {
+	var out []ast.Node
+	info := f.Info()
+	for _, g := range c09Closure(f) {
+		if g.Body == nil {
+			continue
+		}
+		ast.Inspect(g.Body, func(n ast.Node) bool {
+			switch w := n.(type) {
+			case *ast.CallExpr:
+				if c09IsJWT(kit.Callee(info, w), "Alg") {
+					out = append(out, w)
+				}
+			case *ast.IndexExpr:
+				if k, ok := kit.ConstString(info, w.Index); ok && k == "alg" {
+					out = append(out, w)
+				}
+			}
+			return true
+		})
+	}
+	return out
 }
 
 // c09IsLiteralValue reports whether e is a constant or a literal / conversion of
@@ -161,7 +227,8 @@ func c09JWT(c *kit.Ctx, a *c09Anchors) {
 				parse = call
 			}
 		}
-		algInKey := false // the key function only hands out the key for HS256
+		algInKey := false              // the key function only hands out the key for HS256
+		algSeen := map[ast.Node]bool{} // uses of the token's algorithm that a recognised test covered
 		fl := newC09Flow(f)
 		fl.inline = func(cf *kit.Func, call *ast.CallExpr) bool {
 			for _, p := range a.parseFns {
@@ -186,14 +253,15 @@ func c09JWT(c *kit.Ctx, a *c09Anchors) {
 					return "tv", false, true
 				}
 			}
-			if neg, ok := c09AlgAtom(info, e, func(z ast.Expr) bool { return isTok(z, s) }); ok {
+			if neg, ok := c09AlgAtom(info, e, func(z ast.Expr) bool { return isTok(z, s) }, func(z ast.Expr) ast.Expr { return c09LocalDef(fl.cur(), z) }, algSeen); ok {
 				return "alg", neg, true
 			}
 			// the algorithm compared with another constant: a test, but not the required one
 			if x, y, op, ok := kit.CmpAtom(e); ok && (op == token.EQL || op == token.NEQ) {
 				for i := 0; i < 2; i++ {
-					if call, isCall := ast.Unparen(x).(*ast.CallExpr); isCall && c09IsJWT(kit.Callee(info, call), "Alg") {
+					if call, isCall := ast.Unparen(c09LocalDef(fl.cur(), x)).(*ast.CallExpr); isCall && c09IsJWT(kit.Callee(info, call), "Alg") {
 						if v, isC := kit.ConstString(info, y); isC && v != "HS256" {
+							algSeen[call] = true
 							return "algother:" + v, op == token.NEQ, true
 						}
 					}
@@ -256,7 +324,7 @@ func c09JWT(c *kit.Ctx, a *c09Anchors) {
 				}
 			}
 			kfl.atom = func(e ast.Expr, s kit.S) (string, bool, bool) {
-				if neg, ok := c09AlgAtom(kf.Info(), e, func(z ast.Expr) bool { return kfl.roleOf(z, s) == "jtok" }); ok {
+				if neg, ok := c09AlgAtom(kf.Info(), e, func(z ast.Expr) bool { return kfl.roleOf(z, s) == "jtok" }, func(z ast.Expr) ast.Expr { return c09LocalDef(kfl.cur(), z) }, algSeen); ok {
 					return "alg", neg, true
 				}
 				return "", false, false
@@ -310,6 +378,11 @@ func c09JWT(c *kit.Ctx, a *c09Anchors) {
 		res := fl.run(c, kit.NewS())
 		o := r3.Ob(f, parse, "validator truth", "answers true only for a verified token (jwt.Parse error nil / token.Valid) with Method.Alg() == \"HS256\"; the token is not dereferenced before the error test")
 		canTrue := false
+		algOdd := false
+		algUses := c09AlgUses(f)
+		if kf != nil {
+			algUses = append(algUses, c09AlgUses(kf)...)
+		}
 		truthMurky := false
 		bad := ""
 		var badExit kit.Exit
@@ -338,6 +411,21 @@ func c09JWT(c *kit.Ctx, a *c09Anchors) {
 				}
 				if s.Get("a:alg") != "T" && !algInKey {
 					miss = append(miss, "alg == HS256 (neither here nor in the key function)")
+					if s.Get("a:alg") == "" {
+						other := false
+						for _, k := range s.Keys() {
+							if strings.HasPrefix(k, "a:algother:") && s.Get(k) == "T" {
+								other = true
+							}
+						}
+						if !other {
+							for _, u := range algUses {
+								if !algSeen[u] {
+									algOdd = true // the algorithm is examined by an expression that was not understood
+								}
+							}
+						}
+					}
 				}
 				if len(miss) > 0 && s.Get("a:perr") != "T" && (s.Get("opq:jtok") == "1" || s.Get("opq:perr") == "1") {
 					truthMurky = true // the token / error went through code that was not interpreted
@@ -352,6 +440,8 @@ func c09JWT(c *kit.Ctx, a *c09Anchors) {
 		switch {
 		case derefBad != "":
 			o.Violation("%s", derefBad)
+		case bad != "" && algOdd:
+			o.Undecided("%s — but the token's algorithm is examined by an expression that was not understood", bad)
 		case bad != "":
 			o.Violation("%s", bad).WithPath(res.PathTo(badExit))
 		case truthMurky || derefMurky:
